@@ -263,15 +263,23 @@ def chunked(lines, n):
 
 
 def run_parallel(exe, lines, nchunks=16, resilient=True, prefix=None, **kw):
-    """Split lines into chunks, run chunks in parallel processes. prefix lines
-    (P/D settings) are prepended to each chunk and their outputs dropped."""
+    """Split lines into chunks balanced by size, run the chunks in parallel processes.  prefix
+    lines (P/D settings) are prepended to each chunk and their outputs dropped.  Outputs and
+    crash indices are reported in the order of `lines`."""
     prefix = prefix or []
     if not lines:
         return [], []
-    size = max(1, (len(lines) + nchunks - 1) // nchunks)
-    chunks = chunked(lines, size)
+    nb = max(1, min(nchunks, len(lines)))
+    bins = [[] for _ in range(nb)]
+    load = [0] * nb
+    for i in sorted(range(len(lines)), key=lambda i: -len(lines[i])):
+        b = load.index(min(load))
+        bins[b].append(i)
+        load[b] += len(lines[i]) + 64
+    bins = [sorted(b) for b in bins if b]
 
-    def work(ch):
+    def work(idxs):
+        ch = [lines[i] for i in idxs]
         if resilient:
             o, c = run_lines_resilient(exe, prefix + ch, **kw)
         else:
@@ -280,13 +288,15 @@ def run_parallel(exe, lines, nchunks=16, resilient=True, prefix=None, **kw):
             c = [(r.crashed_at, r.returncode, r.stderr)] if r.crashed_at is not None else []
         return o[len(prefix):], [(i - len(prefix), rc, err) for (i, rc, err) in c]
 
-    res = parallel_map(work, chunks)
-    outs, crashes = [], []
-    base = 0
-    for (o, c), ch in zip(res, chunks):
-        outs.extend(o)
-        crashes.extend((base + i, rc, err) for (i, rc, err) in c)
-        base += len(ch)
+    res = parallel_map(work, bins)
+    outs = [None] * len(lines)
+    crashes = []
+    for (o, c), idxs in zip(res, bins):
+        for j, i in enumerate(idxs):
+            outs[i] = o[j] if j < len(o) else None
+        for (j, rc, err) in c:
+            crashes.append((idxs[j] if 0 <= j < len(idxs) else idxs[0], rc, err))
+    crashes.sort(key=lambda t: t[0])
     return outs, crashes
 
 
